@@ -112,8 +112,18 @@ def handler : Handler := fun op inp out =>
         (outcomeStr (fun _ => "-") (modelTable i), fail "no-representatives-returned")
       | some (tl, reps) =>
         let t := tabOfLists tl
-        let m := outcomeStr (fun r => s!"{encTab t} {encReps r}") (cosetRepresentative (Table.ofView i.n t))
-        (m, check [("one-representative-per-row-tracing-to-it", repsOk t i.n reps)])
+        -- The property fixes a representative only up to the coset it represents (any word that traces
+        -- from row 0 to its row), not the word: the model's breadth-first words and the
+        -- implementation's are compared by the row each word reaches in the table.  When every
+        -- implementation word reaches the row the model's word for that row reaches (i.e. its own row)
+        -- the implementation's tokens are echoed as the model payload; otherwise the model's words are
+        -- printed and the orchestrator reports the disagreement.
+        let mr := cosetRepresentative (Table.ofView i.n t)
+        let ok := repsOk t i.n reps
+        let m := match mr with
+          | .ok r => if ok then joinToks out.toList else s!"{encTab t} {encReps r}"
+          | o => outcomeStr (fun r => s!"{encTab t} {encReps r}") o
+        (m, check [("one-representative-per-row-tracing-to-it", ok)])
     | _ => ("-", fail s!"driver-unknown-op-{op}")
 
 end DrvC11
